@@ -586,6 +586,13 @@ impl ContinuityStreamCache {
             Err(err) if err.kind() == io::ErrorKind::NotFound => return Ok(None),
             Err(err) => return Err(err),
         };
+        #[cfg(rip_verif)]
+        if rip_kernel::verif::fail("cache.replay.torn") {
+            return Err(io::Error::new(
+                io::ErrorKind::InvalidData,
+                "injected: last line read while it was being appended",
+            ));
+        }
 
         let reader = BufReader::new(file);
         let mut events = Vec::new();
